@@ -44,6 +44,9 @@ def withdrawn (t : Table K) (d : Int) : Bool := decide (AMap.get t d = some none
 /-- the ids the index currently knows -/
 def isKnown (t : Table K) (d : Int) : Bool := withdrawn t d || !(kwOf t d).isEmpty
 
+/-- the same as a proposition: withdrawn, or at least one keyword -/
+def Known (t : Table K) (d : Int) : Prop := AMap.get t d = some none ∨ kwOf t d ≠ []
+
 def known (t : Table K) : List Int := (AMap.keys t).filter (isKnown t)
 
 def eq (t : Table K) (k : K) : List Int := (known t).filter (fun d => decide (k ∈ kwOf t d))
